@@ -137,3 +137,71 @@ def match_dispatch(m: ast.Match) -> Dispatch:
         else:
             d.branches.append(({"<" + type(p).__name__ + ">"}, c.body, c))
     return d
+
+
+def _lookup_helper(fn: ast.FunctionDef) -> tuple[int, int, str] | None:
+    """fn(table, op) that returns table's value for the first key with isinstance(op, key), else <default>:
+    -> (index of the table parameter, index of the operand parameter, default class)."""
+    params = [a.arg for a in fn.args.posonlyargs + fn.args.args]
+    body = [s for s in fn.body if not (isinstance(s, ast.Expr) and isinstance(s.value, ast.Constant))]
+    if len(params) < 2 or not body:
+        return None
+    first = body[0]
+    # for k, v in table.items(): if isinstance(op, k): return v
+    if isinstance(first, ast.For) and isinstance(first.target, ast.Tuple) and len(first.target.elts) == 2 and isinstance(first.iter, ast.Call) \
+            and isinstance(first.iter.func, ast.Attribute) and first.iter.func.attr == "items" and norm(first.iter.func.value) in params and len(first.body) == 1:
+        k, v = norm(first.target.elts[0]), norm(first.target.elts[1])
+        t = first.body[0]
+        if isinstance(t, ast.If) and not t.orelse and len(t.body) == 1 and isinstance(t.body[0], ast.Return) and norm(t.body[0].value) == v \
+                and isinstance(t.test, ast.Call) and norm(t.test.func) == "isinstance" and len(t.test.args) == 2 and norm(t.test.args[1]) == k \
+                and norm(t.test.args[0]) in params:
+            return params.index(norm(first.iter.func.value)), params.index(norm(t.test.args[0])), classify_body(body[1:])
+    # return table[type(op)]  /  try: return table[type(op)] except KeyError: raise ..
+    for s in body:
+        for n in ast.walk(s):
+            if isinstance(n, ast.Subscript) and norm(n.value) in params and isinstance(n.slice, ast.Call) and norm(n.slice.func) == "type" and norm(n.slice.args[0]) in params:
+                return params.index(norm(n.value)), params.index(norm(n.slice.args[0])), "raise"
+    return None
+
+
+def operator_table(mod, fn: ast.FunctionDef):
+    """The operator dispatch of a converter function, whatever its form:
+    match on the operator, an isinstance chain, or a lookup (directly or through a helper) in a module-level
+    {ast.<Op>: value} table.  -> (entries {kind: value text}, default class, anchor node) or None."""
+    # (a) match
+    for n in ast.walk(fn):
+        if isinstance(n, ast.Match) and any(isinstance(c.pattern, ast.MatchClass) for c in n.cases):
+            entries = {}
+            default = None
+            for c in n.cases:
+                if isinstance(c.pattern, ast.MatchClass):
+                    k = norm(c.pattern.cls).split(".")[-1]
+                    val = [s.value for s in c.body if isinstance(s, (ast.Assign, ast.Return)) and s.value is not None]
+                    entries[k] = norm(val[0]) if val else "?"
+                elif isinstance(c.pattern, ast.MatchAs) and (c.pattern.pattern is None or (isinstance(c.pattern.pattern, ast.MatchAs) and c.pattern.pattern.pattern is None)):
+                    default = c.body
+            return entries, classify_body(default) if default is not None else "none", n
+    # (c) table lookups
+    for n in ast.walk(fn):
+        tbl = None
+        default = "none"
+        if isinstance(n, ast.Call) and isinstance(n.func, ast.Name) and n.func.id in mod.functions and "." not in n.func.id:
+            h = _lookup_helper(mod.functions[n.func.id])
+            if h is not None and len(n.args) > max(h[0], h[1]) and isinstance(n.args[h[0]], ast.Name):
+                tbl, default = n.args[h[0]].id, h[2]
+        elif isinstance(n, ast.Subscript) and isinstance(n.value, ast.Name) and isinstance(n.slice, ast.Call) and norm(n.slice.func) == "type":
+            tbl, default = n.value.id, "raise"
+        if tbl is not None and isinstance(mod.assigns.get(tbl), ast.Dict):
+            d = mod.assigns[tbl]
+            return {norm(k).split(".")[-1]: norm(v) for k, v in zip(d.keys, d.values)}, default, n
+    # (b) isinstance chain
+    for n in ast.walk(fn):
+        if isinstance(n, ast.If) and isinstance_kinds(n.test):
+            d = if_chain(n)
+            entries = {}
+            for kinds, body, _ in d.branches:
+                val = [s.value for s in body if isinstance(s, (ast.Assign, ast.Return)) and s.value is not None]
+                for k in kinds:
+                    entries[k] = norm(val[0]) if val else "?"
+            return entries, classify_body(d.default) if d.default else "none", n
+    return None
